@@ -57,10 +57,18 @@ def handle(r):
     if op == "b64enc":
         return base64.b64encode(bytes(r["bytes"])).decode("ascii")
     if op == "b64dec":
+        # RFC 4648: alphabet only, length a multiple of 4, padding only at the end (CPython's
+        # validate=True tolerates excess padding, which is not part of the standard)
+        t = r["s"]
+        if len(t) % 4 != 0 or not re.fullmatch(r"[A-Za-z0-9+/]*={0,2}", t):
+            return "invalid"
         try:
-            return list(base64.b64decode(r["s"].encode("utf-8"), validate=True))
+            raw = base64.b64decode(t.encode("ascii"), validate=True)
         except Exception:
             return "invalid"
+        if base64.b64encode(raw).decode("ascii") != t:
+            return "noncanonical"
+        return list(raw)
     if op == "hash":
         h = {"md5": hashlib.md5, "sha1": hashlib.sha1, "sha256": hashlib.sha256, "sha512": hashlib.sha512, "sha3": hashlib.sha3_512}[r["alg"]]
         return h(bytes(r["bytes"])).hexdigest()
